@@ -86,7 +86,7 @@ class Shaper:
             # a unit-private helper (static function) that is handed the streams: its traffic is
             # part of this function's shape, exactly as if its body stood here
             g = self.prog.funcs.get(e.get('fid')) if e.get('fid') else None
-            if g is not None and g.get('internal') and g.get('body') and getattr(self, 'depth', 0) < 3:
+            if g is not None and self.prog.is_helper(g) and getattr(self, 'depth', 0) < 3:
                 sub = Shaper(self.prog, g, self.swap)
                 sub.depth = getattr(self, 'depth', 0) + 1
                 out.extend(x for x in sub.stmt(g['body']) if x != '!')
